@@ -168,7 +168,18 @@ let scene_cmd rules world scene0 =
      | Err -> "ERR" | Panic -> "PANIC")
   | _ -> "ERR"
 
+let ent_s (e : entity) = Printf.sprintf "%sv%s" (string_of_int (int_of_n e.e_index)) (string_of_int (int_of_n e.e_gen))
+
 let handle cmd args = match cmd, args with
+  | "cev_dec", ["CE0"; h] -> (match decode_ce0 (bytes_of_hex h) with Ok s -> "OK " ^ string_of_int (int_of_n s) | Err -> "ERR" | Panic -> "PANIC")
+  | "cev_dec", ["CEM"; h] -> (match decode_cem (bytes_of_hex h) with
+      | Ok (s, e) -> Printf.sprintf "OK %d %s" (int_of_n s) (ent_s e) | Err -> "ERR" | Panic -> "PANIC")
+  | "cev_dec", ["CT"; h] -> (match decode_ct (bytes_of_hex h) with
+      | (Ok (ts, s), allocs) -> Printf.sprintf "OK %d [%s] alloc=%s" (int_of_n s) (String.concat "," (List.map ent_s ts))
+          (String.concat "," (List.map (fun a -> string_of_int (int_of_n a)) allocs))
+      | (Err, allocs) -> "ERR alloc=" ^ String.concat "," (List.map (fun a -> string_of_int (int_of_n a)) allocs)
+      | (Panic, _) -> "PANIC")
+  | "ack_dec", [h] -> "OK " ^ String.concat "," (List.map (fun i -> string_of_int (int_of_n i)) (ack_indices (bytes_of_hex h)))
   | "scene", [r; w; s] -> scene_cmd r w s
   | "vis", [wl] -> vis_cmd wl ""
   | "vis", [wl; ops] -> vis_cmd wl ops
